@@ -181,7 +181,7 @@ class Result:
 
 
 def write_replay(prop, name, payload):
-    d = os.path.join(VERIF_DIR, "replays")
+    d = os.environ.get("VERIF_REPLAY_DIR") or os.path.join(VERIF_DIR, "replays")
     os.makedirs(d, exist_ok=True)
     p = os.path.join(d, f"{prop}_{name}.json")
     with open(p, "w") as f:
@@ -211,7 +211,7 @@ def finish(res):
         "known_findings_seen": sorted({e["id"] for e, _ in res.known}),
         "harness_errors": res.harness_errors[:10],
     }
-    d = os.path.join(VERIF_DIR, "evidence")
+    d = os.environ.get("VERIF_EVIDENCE_DIR") or os.path.join(VERIF_DIR, "evidence")
     os.makedirs(d, exist_ok=True)
     with open(os.path.join(d, f"{res.prop}.json"), "w") as f:
         json.dump(ev, f, indent=1, default=repr)
